@@ -782,13 +782,13 @@ def _short(v):
         return str(val)[:80]
 
 
-TAGS = {"direct_param": ["y.cov"], "sigdep_x": ["x.prec", "y.cov"], "reg_d": ["x.prec"], "lin_geom": ["y.cov"], "lognormal_cov_s": ["x.cov"], "lin_sqrtprecF": ["y.cov"], "lin_s": ["y.cov"], "lin_d_s": ["x.prec", "y.cov"], "gmrf_d_s": ["x.prec", "y.prec"], "lmrf_d": ["x.scale"],
+TAGS = {"cov_sd": ["y.cov"], "direct_param": ["y.cov"], "sigdep_x": ["x.prec", "y.cov"], "reg_d": ["x.prec"], "lin_geom": ["y.cov"], "lognormal_cov_s": ["x.cov"], "lin_sqrtprecF": ["y.cov"], "lin_s": ["y.cov"], "lin_d_s": ["x.prec", "y.cov"], "gmrf_d_s": ["x.prec", "y.prec"], "lmrf_d": ["x.scale"],
         "two_lik": ["y2.cov"], "nonlin": ["y.cov"], "xz_s": ["y.cov"], "laplace_b": ["x.scale"],
         "mean_m": ["x.mean", "y.cov"], "cmrf_d": ["x.scale"], "lognormal": ["y.cov"]}
 
 
 def gen_case(r, tier):
-    g = r.choice([x for x in graphs.GRAPHS if x != "reg_s"])
+    g = r.choice([x for x in graphs.GRAPHS if x != "reg_s"] + ["xz_s", "cov_sd"])      # callables with two arguments: twice as likely
     n = r.randint(2, 5)
     rec = {"graph": g, "n": n, "m": n + r.randint(0, 2), "zseed": r.randrange(1, 10 ** 6),
            "bc": r.choice(["zero", "zero", "neumann"])}
